@@ -86,7 +86,7 @@ CHECKS = {
              'batch aligned, equal a logical content between the last completed flush and the kill, and reopen to the '
              'same batches. Images are validated against files left by really killed child processes.',
         note='Trusted: kill model (atomic raw write/ftruncate/memmap batch store, user-space buffers lost, dirty shared '
-             'pages survive; no power loss); interception of elfi.store.open and NpyArray.__setitem__ (a history with no '
+             'pages survive; no power loss); interception of elfi.store.open, of descriptor-level writes through the os module inside elfi.store (os.pwrite / os.write / os.ftruncate) and of NpyArray.__setitem__ (a history with no '
              'logged raw operation aborts the check).',
         design_ref='4 C06'),
     'C07': dict(
@@ -96,7 +96,7 @@ CHECKS = {
         text='Every configuration inside the bound is run on the real SMC sampler; population size, discrepancies against '
              'the threshold in force (user value or the exact-rational weighted quantile set of the previous population), '
              'positive prior density, unit first weights, importance weights prior/mixture with covariance twice the '
-             'weighted variance, reported covariances and simulation counts are recomputed from the returned populations.',
+             'weighted variance, reported covariances and simulation counts are recomputed from the returned populations; extra requested outputs must belong to the same particle as the discrepancy of their row.',
         note='Trusted: scipy.stats densities and numpy.cov(aweights) as reference formulas; rtol 1e-8 for weights and '
              'covariances; degenerate-weight runs are counted, not judged.',
         design_ref='4 C07'),
@@ -129,7 +129,7 @@ CHECKS = {
              'optimised) the posterior log density is compared with log Phi((h-mu)/sd)+log prior on a full grid including '
              'exact bounds and points just outside, its gradient with central differences, and the accelerated '
              'single-point predictions/gradients with GPy; every history of updates (three batch shapes), mode toggles, '
-             'optimisations and predictions must keep evidence as an ordered prefix and never serve outdated cached values. '
+             'optimisations and predictions must keep evidence as an ordered prefix and never serve outdated cached values, also when a copy of the surrogate is alive and either object is continued. '
              'The posterior BOLFI itself hands out (fit / extract_posterior, default and user-given surrogates with '
              'parameter order a,b and b,a, non-exchangeable priors) is judged against GPy plus scipy priors.',
         note='Trusted: GPy as the definition of the GP; tolerances 1e-6 (values) / 1e-5 (gradients) relative to the kernel '
@@ -159,26 +159,28 @@ CHECKS = {
              'classes, operations, positional/named parents, private constants, observed data and parameter_names must '
              'agree with the reference after every step; acyclicity, no dangling edges, no orphan private constants, '
              'observed keys within nodes hold in every state; copies and loaded models generate the same seeded outputs; '
-             'the original is structurally unchanged by every operation applied to a copy.',
-        note='Trusted: the reference model as the reading of the statement; become() explored only for childless '
-             'replacement nodes (documented use).',
+             'the original is structurally unchanged by every operation applied to a copy. A become() that would close a '
+             'cycle (replacement = the node itself or one of its descendants) must be refused without altering the model or leave '
+             'an acyclic consistent graph.',
+        note='Trusted: the reference model as the reading of the statement; the meaning of become() is defined by the reference only for childless '
+             'replacement nodes that are not descendants (documented use); cycle-closing replacements are judged on the invariants.',
         design_ref='4 C14'),
     'C17': dict(
         level='exploration',
         technique='exhaustive product enumeration of small explicit inputs (all summary matrices over a 3-value grid, every placement of <= 2-3 non-finite entries, affine maps, name/API variants, object-reuse sequences, all discrepancy / n_sim / weight / order combinations) on the real adjust_posterior / LinearAdjustment / compare_models, decided by numpy.linalg.lstsq and an exact rational reference',
-        text='Every case inside the bound runs on the real code: adjusted values equal theta - (S - s_obs) beta from lstsq on the rows finite for that parameter, output length/order equal the finite rows, rows at the observed summaries are unchanged, the result is invariant under invertible affine re-expression and summary reordering, a reused adjustment object equals a fresh one; compare_models sums to one, equals share/n_sim x weight normalised (exact rationals), permutes with the models, and on a tie at the cut corresponds to some valid split.',
+        text='Every case inside the bound runs on the real code: adjusted values equal theta - (S - s_obs) beta from lstsq on the rows finite for that parameter, output length/order equal the finite rows, rows at the observed summaries are unchanged, the result is invariant under invertible affine re-expression (including binary-exact common rescalings to 2^-45 .. 2^40) and summary reordering, a reused adjustment object equals a fresh one; compare_models sums to one, equals share/n_sim x weight normalised (exact rationals), permutes with the models, and on a tie at the cut corresponds to some valid split.',
         note='Trusted: numpy.linalg.lstsq and fractions. Scalar parameters/summaries, small well-conditioned data, rtol 1e-8; rank-deficient finite rows: any least-squares slope accepted; a parameter with no finite row may raise; no nan in compared discrepancies.',
         design_ref='4 C17'),
     'C13': dict(
         level='exploration',
         technique='bounded product enumeration of small-alphabet inputs against elfi-free definitional oracles (exact rationals for quantile / variance / ESS, a written-out normal density for the mixture), plus a stateless DFS over every per-row accept/reject answer sequence of a scripted constraint driving the real GMDistribution.rvs',
         text='Every sample / weight vector / alpha / rescaling / dtype combination inside the stated alphabets runs on the real weighted_sample_quantile (also through Sample.sample_quantiles and the 95% intervals), weighted_var, compute_ess and normalize_weights; the quantile definition (element of the sample, W(<=q) >= alpha, W(<q) <= alpha), monotonicity and scale invariance are decided exactly, with ties, zeros, unsorted input, single elements and alpha on cumulative boundaries as alphabet symbols. GM pdf/logpdf are compared on dims 1..3 x 1..3 components x covariance forms x weight vectors x argument shapes; for rvs the complete answer tree ((R+1)^size executions per configuration) is executed and each execution must return exactly size rows drawn from the accepted proposals.',
-        note="Bounds: n <= 4/5, weights <= 3, d <= 3, k <= 3, size <= 4/6, R <= 3/6; all-zero weights excluded. Tolerances 1e-11 (variance/ESS) and 1e-9 (density) on a fixed well-conditioned grid. Trusted: exact-rational oracles, numpy/scipy linear algebra, horizon 'forced accept after R rounds'.",
+        note="Bounds: n <= 4/5, weights <= 3, d <= 3, k <= 3, size <= 4/6, R <= 3/6; all-zero weights excluded. Tolerances 1e-11 (variance/ESS) and 1e-9 relative (density) on a fixed well-conditioned grid plus well separated components (means x 40) with weights down to 1e-300, queried at the component means. Trusted: exact-rational oracles, numpy/scipy linear algebra, horizon 'forced accept after R rounds'.",
         design_ref='4 C13'),
     'C12': dict(
         level='model_checking',
         technique='exhaustive product enumeration of (summary layout, observed form, metric with keywords, batch size, dtype) over real Distance nodes with every row of grid**m in a batch, compared row by row with scipy.spatial.distance.<metric>; for adaptive scales all data sets x all compositions into add_data calls plus explicit-state BFS over round/abort/reset histories of a real AdaptiveDistance node with canonical state merging, cross-checked against un-merged sequences',
-        text='Each configuration builds a real model and evaluates the distance through model.generate(with_values=...); output shape (bs,) and value are decided per row against an independent scipy call for scalar, (bs,1) and (bs,2) summaries, bs=1 and the keywords p, w, V, VI. For the adaptive distance every split of every small data set must give np.std after each call regardless of node prehistory; every reachable node state (<= 3-4 rounds) is expanded with every round/abort/reset operation, checking w = 1/scale, one more output column, earlier columns bit-identical, newest column equal to the scaled Euclidean distance and a clean start of the next round. A small sampler-level confirmation (Rejection, AdaptiveDistanceSMC) is included.',
+        text='Each configuration builds a real model and evaluates the distance through model.generate(with_values=...); output shape (bs,) and value are decided per row against an independent scipy call for scalar, (bs,1) and (bs,2) summaries, bs=1 and the keywords p, w, V, VI. For the adaptive distance every split of every small data set must give np.std after each call regardless of node prehistory; every reachable node state (<= 3-4 rounds) is expanded with every round/abort/reset operation, checking w = 1/scale, one more output column, earlier columns bit-identical, newest column equal to the scaled Euclidean distance and a clean start of the next round. add_data must leave the summary arrays it is given unchanged. A small sampler-level confirmation (Rejection, AdaptiveDistanceSMC; two scalar summaries and one vector-valued summary) is included: returned summaries were simulated, discrepancies are the newest distance of their row.',
         note='Trusted: scipy row functions and np.std as references; tolerances 1e-12 (cdist vs row function on small integers) and 1e-10 (Welford vs two-pass). Data sets with a constant column excluded as whole-round data; empty-round updates excluded; bounds n <= 5/7 rows, value grids of 2-4 symbols.',
         design_ref='4 C12'),
     'C18': dict(
@@ -190,7 +192,7 @@ CHECKS = {
     'C16': dict(
         level='exploration',
         technique='exhaustive product enumeration of parameter-name orders x outputs-dict orders x sizes x weight vectors x grid value matrices on real Sample / SmcSample / BolfiSample / BslSample objects, plus every save/query history up to depth 3-4, decided by exact-rational weighted-mean and quantile references, stdlib-parser read-back and an exact-rational direct-sum ESS / split R-hat reference with affine and permutation metamorphic relations',
-        text='Every result object inside the bounds is built on the real classes and must expose its columns in parameter-name order, its means must equal the exact weighted averages and its intervals must be admissible weighted quantiles; BOLFI samples must be the chain-by-chain concatenation of chain[warmup:] (distinct numbers per cell, four memory layouts). Every sequence of pkl/csv/json saves and queries must leave all 17 accessors unchanged and every file must read back to the same samples, including a float64/int64 text round-trip alphabet. ESS and split R-hat must equal their formulas and stay invariant under four binary-exact affine maps and all chain permutations. Real seeded Rejection and SMC results go through the same oracle.',
+        text='Every result object inside the bounds is built on the real classes and must expose its columns in parameter-name order, its means must equal the exact weighted averages and its intervals must be admissible weighted quantiles; BOLFI samples must be the chain-by-chain concatenation of chain[warmup:] (distinct numbers per cell, four memory layouts). Every sequence of pkl/csv/json saves and queries must leave all 17 accessors unchanged (after a replacement of the weights, as the SMC sampler performs it, the accessors must describe the stored samples under the new weights) and every file must read back to the same samples, including a float64/int64 text round-trip alphabet. ESS and split R-hat must equal their formulas and stay invariant under four binary-exact affine maps and all chain permutations. Real seeded Rejection and SMC results go through the same oracle.',
         note='Trusted: fractions, stdlib json/csv/pickle, numpy array construction; rtol 1e-9 only where float and exact formulas are compared; quantile alpha widened by 1e-9 on boundaries; ESS cases within 1e-9 of the truncation sign change and zero-variance chains counted, not judged. Univariate float64/int64 columns, n <= 5, <= 4 parameters, <= 4 chains, length <= 8; idata and plotting not exercised; file key/column order not demanded.',
         design_ref='4 C16'),
     'C08': dict(
